@@ -167,3 +167,16 @@ func TestVerifFindingC01SelectionSlices(t *testing.T) {
 		}()
 	}
 }
+
+// C01 (fixed): redraw-current-line was registered as the method value rl.Display.Refresh before the display
+// engine existed: a nil receiver was captured and the command always panicked.
+func TestVerifFindingC01RedrawCurrentLine(t *testing.T) {
+	defer func() {
+		if r := recover(); r != nil {
+			t.Errorf("redraw-current-line panics: %v", r)
+		}
+	}()
+	rl := NewShell()
+	rl.init()
+	rl.Keymap.Commands()["redraw-current-line"]()
+}
